@@ -1,10 +1,149 @@
 import PewDriver.Util
+import PewModel.Npz
 open Lean
 namespace PewDriver.C01
-open PewDriver
+open PewDriver Pew.Npz
 
-def handle (op : String) (_req : Json) : R Json := do
+/-! Strings travel as lists of code points (no JSON escaping questions for NUL, surrogate pairs,
+combining marks).  A float token is `[isNaN, bits]`. -/
+
+def asS (j : Json) : R Str := do
+  let l ← asList asNat j
+  pure (l.map Char.ofNat)
+
+def jS (s : Str) : Json := jList (fun (c : Char) => jNat c.toNat) s
+
+def asF (j : Json) : R Flt :=
+  match j with
+  | .arr #[t, b] => do
+    let t ← asNat t; let b ← asInt b
+    if t = 1 then pure (.nan b) else if t = 0 then pure (.num b) else throw "bad float tag"
+  | _ => throw s!"expected float token, got {j.compress}"
+
+def jF : Flt → Json
+  | .nan b => .arr #[jNat 1, jInt b]
+  | .num b => .arr #[jNat 0, jInt b]
+
+def asPair {α β : Type} (f : Json → R α) (g : Json → R β) (j : Json) : R (α × β) :=
+  match j with
+  | .arr #[a, b] => do pure (← f a, ← g b)
+  | _ => throw s!"expected pair, got {j.compress}"
+
+def jPair {α β : Type} (f : α → Json) (g : β → Json) (p : α × β) : Json := .arr #[f p.1, g p.2]
+
+def asCal (j : Json) : R Cal := do
+  pure { intercept := ← fld j "intercept" >>= asF
+         gradient := ← fld j "gradient" >>= asF
+         unit := ← fld j "unit" >>= asS
+         rsq := ← fld j "rsq" >>= asOpt asF
+         error := ← fld j "error" >>= asOpt asF
+         points := ← getList (asPair asF asF) j "points"
+         weighting := ← fld j "weighting" >>= asS
+         weights := ← getList asF j "weights" }
+
+def jCal (c : Cal) : Json :=
+  jObj [("intercept", jF c.intercept), ("gradient", jF c.gradient), ("unit", jS c.unit),
+        ("rsq", jOpt jF c.rsq), ("error", jOpt jF c.error), ("points", jList (jPair jF jF) c.points),
+        ("weighting", jS c.weighting), ("weights", jList jF c.weights),
+        ("builtin", jBool (decide (c.weighting ∈ knownWeighting)))]
+
+def asConfig (j : Json) : R Config := do
+  match ← getStr j "class" with
+  | "raster" => pure (.raster (← fld j "spotsize" >>= asF) (← fld j "speed" >>= asF) (← fld j "scantime" >>= asF))
+  | "spot" => pure (.spot (← fld j "spotsize" >>= asF) (← fld j "spotsize_y" >>= asF))
+  | "srr" =>
+    pure (.srr { spotsize := ← fld j "spotsize" >>= asF, speed := ← fld j "speed" >>= asF
+                 scantime := ← getRat j "scantime", warmupN := ← getInt j "warmup_n"
+                 subSize := ← getNat j "sub_size", subOffsets := ← getList asInt j "sub_offsets" })
+  | c => throw s!"bad config class {c}"
+
+def jConfig : Config → Json
+  | .raster a b c => jObj [("class", jStr "raster"), ("spotsize", jF a), ("speed", jF b), ("scantime", jF c)]
+  | .spot a b => jObj [("class", jStr "spot"), ("spotsize", jF a), ("spotsize_y", jF b)]
+  | .srr c => jObj [("class", jStr "srr"), ("spotsize", jF c.spotsize), ("speed", jF c.speed),
+                    ("scantime", jRat c.scantime), ("warmup_n", jInt c.warmupN), ("sub_size", jNat c.subSize),
+                    ("sub_offsets", jList jInt c.subOffsets)]
+
+def asLayer (j : Json) : R Layer := do
+  pure { shape := ← getList asNat j "shape", cells := ← getList (asList asInt) j "cells" }
+
+def jLayer (l : Layer) : Json :=
+  jObj [("shape", jList jNat l.shape), ("cells", jList (jList jInt) l.cells)]
+
+def asLaser (j : Json) : R Laser := do
+  let kind ← (do match ← getStr j "kind" with
+    | "laser" => pure Kind.laser
+    | "srr" => pure Kind.srr
+    | k => throw s!"bad kind {k}")
+  pure { kind := kind
+         fields := ← getList (asPair asS asS) j "fields"
+         layers := ← getList asLayer j "layers"
+         cal := ← getList (asPair asS asCal) j "cal"
+         config := ← fld j "config" >>= asConfig
+         info := ← getList (asPair asS asS) j "info" }
+
+def jLaser (L : Laser) : Json :=
+  jObj [("kind", jStr (match L.kind with | .laser => "laser" | .srr => "srr")),
+        ("fields", jList (jPair jS jS) L.fields), ("layers", jList jLayer L.layers),
+        ("cal", jList (jPair jS jCal) L.cal), ("config", jConfig L.config),
+        ("info", jList (jPair jS jS) L.info)]
+
+def jErr : Err → Json
+  | .valueError => jStr "ValueError"
+  | .keyError => jStr "KeyError"
+  | .assertionError => jStr "AssertionError"
+  | .typeError => jStr "TypeError"
+  | .indexError => jStr "IndexError"
+
+def jRes : Except Err Laser → Json
+  | .ok L => jObj [("ok", jLaser L)]
+  | .error e => jObj [("raises", jErr e)]
+
+def asPath (j : Json) : R PathInfo := do
+  pure { stem := ← fld j "stem" >>= asS, resolved := ← fld j "resolved" >>= asS }
+
+/-- numeric components of a version string, if it has only such -/
+def versionNums (v : Str) : Option (List Nat) :=
+  (splitOn '.' v).mapM fun s => match parseNat s with | .ok n => some n | .error _ => none
+
+/-- specification of loading a file of an old layout: rejected below 0.6.0, else the laser with
+the info that layout carries -/
+def specOld (v06 : Bool) (p : PathInfo) (ver : Str) (L : Laser) : Except Err Laser :=
+  match versionNums ver with
+  | none => .error .valueError
+  | some ns =>
+    if lexZip ns [0, 6, 0] = -1 then .error .valueError
+    else .ok (if v06 then normaliseV06 p ver L else normalise p ver L)
+
+def handle (op : String) (req : Json) : R Json := do
   match op with
+  | "c01.roundtrip" =>
+    let L ← fld req "laser" >>= asLaser
+    let p ← fld req "path" >>= asPath
+    let ver ← fld req "version" >>= asS
+    let time ← fld req "time" >>= asS
+    let n ← getNat req "chain"
+    let hyp := L.ok && versionOk ver && noNulEnd time && infoNoNul L.info && tabFree p.stem && noNulEnd p.stem
+    pure (jObj [("model", jRes (generations id ver time p n L)),
+                ("spec", jRes (.ok (normalise p ver L))),
+                ("hyp", jBool hyp)])
+  | "c01.layouts" =>
+    let L ← fld req "laser" >>= asLaser
+    let p ← fld req "path" >>= asPath
+    let ver ← fld req "version" >>= asS
+    let time ← fld req "time" >>= asS
+    let v06 ← fld req "v06" >>= asS
+    let v07 ← fld req "v07" >>= asS
+    let hyp := L.ok && versionOk ver && noNulEnd time
+      && (version06Ok v06 || (noNulEnd v06 && cmpLt v06 v060)) && version07Ok v07
+      && noNulEnd ((dictGet L.info kName).getD [])
+    pure (jObj [("model", jObj [("v06", jRes (saveV06 id v06 L >>= load id p)),
+                                ("v07", jRes (saveV07 id v07 L >>= load id p)),
+                                ("v08", jRes (save id ver time L >>= load id p))]),
+                ("spec", jObj [("v06", jRes (specOld true p v06 L)),
+                               ("v07", jRes (specOld false p v07 L)),
+                               ("v08", jRes (.ok (normalise p ver L)))]),
+                ("hyp", jBool hyp)])
   | _ => throw s!"unknown op {op}"
 
 end PewDriver.C01
